@@ -22,7 +22,10 @@ Unconstrained == {d \o "nested/" \o n : d \in Dirs, n \in TomlNames}
 Toml(f) == f \in WatchedToml
 
 \* one notification per maximal run of identical consecutive toml writes (the kernel may merge those)
-MinNotes(ws) == Cardinality({i \in 1..Len(ws) : Toml(ws[i]) /\ (i = 1 \/ ws[i - 1] # ws[i])})
+\* - among the writes that raise an event at all: a write below a nested directory raises none on the four
+\* watches, so two writes of one file with only nested writes between them are still adjacent in the queue
+MinNotes(ws) == LET es == SelectSeq(ws, LAMBDA f : f \notin Unconstrained)
+                IN Cardinality({i \in 1..Len(es) : Toml(es[i]) /\ (i = 1 \/ es[i - 1] # es[i])})
 MaxNotes(ws) == Cardinality({i \in 1..Len(ws) : Toml(ws[i]) \/ ws[i] \in Unconstrained})
 
 Judge(ln) ==
